@@ -168,6 +168,8 @@ class Interp:
                 self.active.pop()
         except ModelBoom as e:
             assert len(self.bufs) == depth
+            if e.i == "undef" and n.get("exc", "all") in ("ctx", "ctx_tuple", "ctx_as"):
+                raise  # the handler names the injected exception's class only: a NameError passes through
             self.handled_by = "try"
             self.run_nodes(n["handler"], env)
 
